@@ -17,7 +17,7 @@ import dlib  # noqa: E402
 
 logging.disable(logging.CRITICAL)
 
-from traits.api import Any, HasTraits, Int, List, push_exception_handler  # noqa: E402
+from traits.api import Any, DelegatesTo, HasTraits, Instance, Int, List, TraitType, push_exception_handler  # noqa: E402
 
 EXN = ["IndexError", "ValueError", "TraitError", "TypeError", "KeyError", "AttributeError", "RecursionError"]
 NAMES = ["s0", "s1", "l0", "l1"]
@@ -30,6 +30,48 @@ class A(HasTraits):
     l0 = List(Int)
     l1 = List(Int)
     a0 = Any          # partner-only: takes whatever it is given; neither observed nor operated on
+
+
+# Object variants (case["variant"][oid], default "plain"); the property does not distinguish them:
+#  "deleg":  l0 is a DELEGATED list attribute (DelegatesTo a List(Int) on a private model object): sync_trait has to
+#            recognise it as a list trait through base_trait() and hook <name>_items on it like on a plain List;
+#  "valerr": s1 is an integer trait whose validator signals rejection with a ValueError subclass, not TraitError:
+#            as a partner that rejects a value it must be skipped like any other (the handler's `except: pass`).
+class M(HasTraits):
+    l0 = List(Int)
+
+
+class D(HasTraits):
+    s0 = Int
+    s1 = Int
+    model = Instance(M, ())
+    l0 = DelegatesTo("model")
+    l1 = List(Int)
+    a0 = Any
+
+
+class Refused(ValueError):
+    pass
+
+
+class IntV(TraitType):
+    default_value = 0
+
+    def validate(self, object, name, value):
+        if type(value) is int:
+            return value
+        raise Refused("%r is not an integer" % (value,))
+
+
+class V(HasTraits):
+    s0 = Int
+    s1 = IntV()
+    l0 = List(Int)
+    l1 = List(Int)
+    a0 = Any
+
+
+VARIANTS = {"plain": A, "deleg": D, "valerr": V}
 
 
 LOGGED = [0]
@@ -99,7 +141,8 @@ def run_case(case, emit=None):
     counts = {}
     pool = []
     for oid, vals in enumerate(case["init"]):
-        o = A(s0=vals[0], s1=vals[1], l0=list(vals[2]), l1=list(vals[3]))
+        o = VARIANTS[(case.get("variant") or ["plain"] * len(case["init"]))[oid]](
+            s0=vals[0], s1=vals[1], l0=list(vals[2]), l1=list(vals[3]))
         rec = make_recorder(oid, counts)
         for n in NAMES:
             o.on_trait_change(rec, n)
@@ -131,7 +174,8 @@ def run_case(case, emit=None):
             else:
                 raise RuntimeError("unknown op %r" % (op,))
         except Exception as e:  # noqa: BLE001
-            res = dlib.exn_name(e, EXN)
+            # the "valerr" variant's own way of rejecting a value is the rejection outcome
+            res = "TraitError" if isinstance(e, Refused) else dlib.exn_name(e, EXN)
             e = None
         vals, cnt = [], []
         for oid, o in enumerate(pool):
